@@ -23,8 +23,9 @@ definitions of core/operators.py at each node (pointwise `+ - * / ^ < >` with th
 `Divider`, number∘feature and feature∘number forms, `I D D2 ABS SQRT LOG DIODE SIGN EXP COS SIN TAN`,
 `SUM AVG VAR STD MSE RMSE MAD MIN MAX MEDIAN ARGMIN ARGMAX`); it has no stack, no temporaries and no parser.
 The theorems cover both directions (value: T1–T5, error: T6) and start from the string the user types (T7, with the
-`'` shorthand: T11, and a sign typed directly after a binary `+` / `-`: T12). T8–T10 relate definitions as coded to their
-documented formulas: `MIN` / `MAX` (T8), `ARGMIN` / `ARGMAX` (T9, T9'), `D` / `I` / `D2` (T10).
+`'` shorthand: T11, a sign typed directly after a binary `+` / `-`: T12, any number of bare minuses and doubled signs in one
+string: T15). T8–T10 relate definitions as coded to their documented formulas: `MIN` / `MAX` (T8), `ARGMIN` / `ARGMAX` (T9, T9'),
+`D` / `I` / `D2` (T10); `SUM AVG VAR STD MSE RMSE` (T13) and `MEDIAN` / `MAD` (T14) are in `Props/C02Agg.lean`.
 
 The model is that of the code after the repairs 5676890 / 2dd86ce (`a/number`, `number/a` are single divisions, coded like
 the other scalar operators; they used to go through a reciprocal) and b728412 (`ARGMIN` / `ARGMAX` take their first index on
